@@ -103,7 +103,7 @@ class SimFS:
 
     # ---- patched entry points
     def open(self, file, mode='r', buffering=-1, encoding=None, errors=None, newline=None, closefd=True, opener=None):
-        if isinstance(file, int) or not self.inside(file) or not any(c in mode for c in 'wax+'):
+        if isinstance(file, int) or opener is not None or not self.inside(file) or not any(c in mode for c in 'wax+') or os.path.isdir(file):
             return _real_open(file, mode, buffering, encoding, errors, newline, closefd, opener)
         act = self.step('open', file, mode)
         if act is not None and act[0] in ('error', 'torn-error'):
